@@ -708,6 +708,8 @@ def _check_report(run, repo, world):
     fn = _acopy(fn)
     drop_dead_stores(fn)
     ast.fix_missing_locations(fn)
+    from ..normal import canon_class_refs
+    canon_class_refs(fn, world, HID)
     fn = _bus_watch_roles(fn)
     Q = HID + ".tridonic._bus_watch"
     cfg = CFG(fn, may_raise=suspension_may_raise, name=Q)
@@ -886,11 +888,13 @@ def _check_report(run, repo, world):
         a1 = c.args[1] if len(c.args) > 1 else None
         if subj == "current_command" and cd.get(
                 "current_command.sendtwice") is False:
-            ok1 = a1 is not None and unparse(a1) in (
-                "current_command.response(None)",
-                "current_command.response(frame)")
+            # (a local holding the response built once is that response)
+            from .. import astq as _aq
+            a1t = _aq.canon(fn, a1, calls=True) if a1 is not None else None
+            ok1 = a1t in ("current_command.response(None)",
+                          "current_command.response(frame)")
             if cd.get("isinstance(frame, dali.frame.BackwardFrame)") is True:
-                ok1 = unparse(a1) == "current_command.response(frame)"
+                ok1 = a1t == "current_command.response(frame)"
             run.ob("R-REPORT", key + "#answer", ok1,
                    "a query must be reported together with its own response "
                    "object (%s)" % (unparse(a1) if a1 is not None else None),
@@ -1159,6 +1163,44 @@ def _check_subs(run, repo, world):
                "compare by identity (%s): a second subscription replaces "
                "the first, and cancelling one cancels the other" % (
                    kcls.name, "; ".join(why)), where(m_, kcls.node))
+    # every subscriber gets a queue of its own: new_dali_rx_queue() builds a
+    # child queue on each call (one shared child would split the reports
+    # between its readers, and cancelling it would cancel everybody)
+    from ..seq import nonlocal_stores as _nls
+    from .. import paths as _pp
+    n_new = 0
+    for k_ in world.class_order:
+        if k_.mod != SER or "new_dali_rx_queue" not in k_.methods:
+            continue
+        f_ = k_.methods["new_dali_rx_queue"][1]
+        body_ = [x for x in f_.body if not (isinstance(x, ast.Expr) and
+                                            isinstance(x.value, ast.Constant))]
+        if len(body_) == 1 and isinstance(body_[0], ast.Raise):
+            continue          # abstract
+        n_new += 1
+        try:
+            ps_ = _pp.summaries(f_)
+        except _pp.Unsupported:
+            ps_ = None
+        fresh = ps_ is not None and bool(ps_)
+        for p_ in ps_ or []:
+            if p_.kind == "raise":
+                continue
+            e_ = p_.expr if p_.kind == "return" else None
+            k2 = world.resolve_class(SER, e_.func) if isinstance(
+                e_, ast.Call) else None
+            if k2 is None or dq not in k2.mro:
+                fresh = False
+        st_ = _nls(f_)
+        run.ob("R-SUBS", "%s.new_dali_rx_queue#fresh-queue" % k_.qname,
+               fresh and not st_,
+               "new_dali_rx_queue must hand every caller a DistributorQueue "
+               "built in that call (returns: %s; keeps: %s): subscribers "
+               "sharing one queue each see only part of the traffic" % (
+                   [unparse(p_.expr, 50) if p_.kind == "return" and
+                    p_.expr is not None else p_.kind for p_ in ps_ or []],
+                   [t for _, t in st_]), where(smod, f_))
+    run.floor("new_dali_rx_queue implementations", n_new, 2)
     add = dq.methods["add_handler"][1]
     dele = dq.methods["del_handler"][1]
     dist = dq.methods["distribute"][1]
